@@ -8,7 +8,7 @@ echo "== cargo check" >> "$LOG"; cargo check --offline 2>&1 | tail -2 >> "$LOG"
 echo "== suite with change" >> "$LOG"
 cargo nextest run --workspace --no-fail-fast --test-threads 8 --offline -E 'not binary(seeded_demo)' 2>&1 | grep -E "Summary|FAIL " | head -5 >> "$LOG"
 echo "== demo with change (expect failure)" >> "$LOG"
-cargo test --offline --test seeded_demo 2>&1 | grep -E "^test result|FAILED|panicked" | head -5 >> "$LOG"
+cargo test --offline --test seeded_demo 2>&1 | grep -E "^test result" | head -3 >> "$LOG"
 git diff -- src lib > "$WT/.seed.patch"
 git apply -R "$WT/.seed.patch"
 echo "== demo without change (expect pass)" >> "$LOG"
